@@ -296,6 +296,93 @@ run_array_sources (void)
   }
 }
 
+// --- A9: the argument is not an element but an object OWNED by an element (reached through a
+//     pointer member), and the element type has deep-copying copy operations and no move
+//     operations: shifting the tail assigns over the owner and destroys the argument. std::vector
+//     gives the copy-first result for every such call.
+struct node
+{
+  int   id;
+  node *child;
+  explicit node (int i, int c = -1) : id (i), child (c < 0 ? 0 : new node (c)) { }
+  node (const node& o) : id (o.id), child (o.child ? new node (*o.child) : 0) { }
+  node& operator= (const node& o)
+  {
+    if (this != &o)
+    {
+      node *c = o.child ? new node (*o.child) : 0;
+      delete child;
+      child = c;
+      id    = o.id;
+    }
+    return *this;
+  }
+  ~node (void) { delete child; id = -777; }
+};
+
+static long
+node_key (const node& x)
+{
+  return x.id * 1000L + (x.child ? x.child->id : -1);
+}
+
+template <class A, class B>
+static bool
+same_nodes (const A& a, const B& b)
+{
+  if (a.size () != b.size ())
+    return false;
+  for (std::size_t i = 0; i < a.size (); ++i)
+    if (node_key (a[i]) != node_key (b[i]))
+      return false;
+  return true;
+}
+
+template <unsigned N>
+static void
+run_owned_argument (void)
+{
+  typedef gch::small_vector<node, N> V;
+  typedef std::vector<node> S;
+  bool ok = true;
+  unsigned long n_cases = 0;
+  for (unsigned size = 1; size <= 6 && ok; ++size)
+    for (unsigned pos = 0; pos <= size && ok; ++pos)
+      for (unsigned owner = 0; owner < size && ok; ++owner)
+        for (unsigned count = 0; count <= 7 && ok; ++count)
+          for (int roomy = 0; roomy < 2 && ok; ++roomy)
+            for (int op = 0; op < 5 && ok; ++op)
+            {
+              V v; S s;
+              if (roomy) { v.reserve (16); s.reserve (16); }
+              for (unsigned k = 0; k < size; ++k)
+              {
+                v.push_back (node (static_cast<int> (k), static_cast<int> (100 + k)));
+                s.push_back (node (static_cast<int> (k), static_cast<int> (100 + k)));
+              }
+              ++n_cases;
+              switch (op)
+              {
+                case 0: v.insert (v.begin () + pos, count, *v[owner].child);
+                        s.insert (s.begin () + pos, count, *s[owner].child); break;
+                case 1: v.insert (v.begin () + pos, *v[owner].child);
+                        s.insert (s.begin () + pos, *s[owner].child); break;
+                case 2: v.emplace (v.begin () + pos, *v[owner].child);
+                        s.emplace (s.begin () + pos, *s[owner].child); break;
+                case 3: v.push_back (*v[owner].child); v.emplace_back (*v[owner].child);
+                        s.push_back (*s[owner].child); s.emplace_back (*s[owner].child); break;
+                default: v.resize (count, *v[owner].child);
+                         s.resize (count, *s[owner].child); break;
+              }
+              ok = same_nodes (v, s);
+              if (! ok)
+                std::printf ("ARCHDETAIL node N=%u size=%u pos=%u owner=%u count=%u roomy=%d op=%d\n", N, size,
+                             pos, owner, count, roomy, op);
+            }
+  cases += n_cases;
+  expect (ok, "node(owned argument)", "insert / emplace / push_back / resize with an argument owned by an element");
+}
+
 // --- value-initialisation of trivially constructible types whose null value is not all-zero
 //     bytes (pointers to data members), alone and inside a trivial aggregate
 struct rec { int a; int b; };
@@ -341,6 +428,7 @@ main (void)
   run_assignable<a4, 0> ("a4"); run_assignable<a4, 3> ("a4"); run_assignable<a4, 16> ("a4");
   run_assignable<a5, 0> ("a5"); run_assignable<a5, 3> ("a5"); run_assignable<a5, 16> ("a5");
   run_array_sources<0> (); run_array_sources<2> (); run_array_sources<16> ();
+  run_owned_argument<0> (); run_owned_argument<4> ();
   run_assignable<a6, 0> ("a6(operator&)"); run_assignable<a6, 3> ("a6(operator&)"); run_assignable<a6, 16> ("a6(operator&)");
 #if __cplusplus >= 201703L
   for (unsigned pad = 0; pad < 64; pad += 16)
